@@ -3,7 +3,10 @@ package main
 import (
 	"encoding/json"
 	"fmt"
+	"io/fs"
+	"os/exec"
 	"time"
+	"verifh/gitrepo"
 
 	"os"
 	"path/filepath"
@@ -16,10 +19,11 @@ import (
 func replayDetImpl(c *Ctx, raw json.RawMessage) bool {
 	var rp struct {
 		Input struct {
-			Case  addrCase `json:"case"`
-			Mode  string   `json:"mode"`
-			Procs int      `json:"gomaxprocs"`
-			Stop  *struct {
+			Case      addrCase `json:"case"`
+			Mode      string   `json:"mode"`
+			Procs     int      `json:"gomaxprocs"`
+			IndexRoot string   `json:"index_root"`
+			Stop      *struct {
 				Match string `json:"match"`
 				Mode  string `json:"mode"`
 			} `json:"stop"`
@@ -46,6 +50,37 @@ func replayDetImpl(c *Ctx, raw json.RawMessage) bool {
 	for _, m := range addrModes {
 		if m.Name != rp.Input.Mode {
 			continue
+		}
+		if ir := rp.Input.IndexRoot; ir != "" {
+			gitTop := func(args ...string) {
+				cmd := exec.Command("/usr/bin/git", args...)
+				cmd.Dir = l.Top
+				cmd.Env = gitrepo.GitEnv(base)
+				cmd.Run()
+			}
+			gitTop("read-tree", "refs/heads/main")
+			gitTop("checkout-index", "-a", "-f")
+			old := time.Unix(1000000000, 0)
+			filepath.WalkDir(l.Top, func(p string, d fs.DirEntry, err error) error {
+				if err == nil && !d.IsDir() && !strings.Contains(p, "/.git/") {
+					os.Chtimes(p, old, old)
+				}
+				return nil
+			})
+			for rep := 0; rep < 3; rep++ {
+				e.extraEnv = []string{"VERIF_SNAP_DIR=" + base}
+				ar := e.runAddr(l, m, base, race, rp.Input.Procs, ir)
+				e.extraEnv = nil
+				if ar.Before != ar.After {
+					return true
+				}
+				for _, rec := range ar.Log {
+					if rec.Snap != "" && rec.Snap != ar.Before {
+						return true
+					}
+				}
+			}
+			return false
 		}
 		if st := rp.Input.Stop; st != nil {
 			for rep := 0; rep < 3; rep++ {
